@@ -1742,10 +1742,14 @@ def struct_cmp(it, x, y):
         return compare_seq(it, x.f, y.f)
     if isinstance(x, Agg) and isinstance(y, Agg): return compare_seq(it, x.f, y.f)
     return compare(it, x, y)
+def has_mir_impl(it, ty, trait, method, x, y):
+    from resolve import resolve_call, Unresolved
+    try: return resolve_call(it, '<%s as %s>::%s' % (ty, trait, method), [Ref([x], 0), Ref([y], 0)], [None, None], None)[0] == 'mir'
+    except (Unresolved, Unsupported): return False
 @model('PartialEq::eq')
 def _(it, a, info):
     x, y = _peel(a[0]), _peel(a[1])
-    if isinstance(x, (Agg, Enum)) and not is_std_value(x): return std_equal(it, x, y)
+    if isinstance(x, (Agg, Enum)) and not is_std_value(x) and not has_mir_impl(it, x.ty, 'PartialEq', 'eq', x, y): return std_equal(it, x, y)
     return values_equal(it, x, y)
 @model('PartialEq::ne')
 def _(it, a, info):
@@ -1753,11 +1757,13 @@ def _(it, a, info):
 @model('Ord::cmp')
 def _(it, a, info):
     x = _peel(a[0])
-    return ordering(struct_cmp(it, a[0], a[1]) if isinstance(x, (Agg, Enum)) and not is_std_value(x) else compare(it, a[0], a[1]))
+    return ordering(struct_cmp(it, a[0], a[1]) if isinstance(x, (Agg, Enum)) and not is_std_value(x) and not has_mir_impl(it, x.ty, 'Ord', 'cmp', x, _peel(a[1])) else compare(it, a[0], a[1]))
 @model('PartialOrd::partial_cmp')
 def _(it, a, info):
     x = _peel(a[0])
-    c = struct_cmp(it, a[0], a[1]) if isinstance(x, (Agg, Enum)) and not is_std_value(x) else compare(it, a[0], a[1])
+    if isinstance(x, (Agg, Enum)) and not is_std_value(x) and has_mir_impl(it, x.ty, 'PartialOrd', 'partial_cmp', x, _peel(a[1])):
+        return it.call_named('<%s as PartialOrd>::partial_cmp' % x.ty, [Ref([x], 0), Ref([_peel(a[1])], 0)], [None, None], None)
+    c = struct_cmp(it, a[0], a[1]) if isinstance(x, (Agg, Enum)) and not is_std_value(x) and not has_mir_impl(it, x.ty, 'Ord', 'cmp', x, _peel(a[1])) else compare(it, a[0], a[1])
     return none() if c is None else some(ordering(c))
 
 # ---- small integer types get the same checked / wrapping / saturating family as the wide ones
@@ -1874,3 +1880,106 @@ def _(it, a, info):
     if dn == 'char' and is_scalar(v):
         return z3.ZeroExt(24, v) if is_sym(v) and v.size() == 8 else v
     return _old_from(it, a, info)
+
+# ------------------------------------------------------------------ found by the benign-refactor round
+from models_coll import HasherState, hasher_of, feed, uf
+@model('BuildHasherDefault::default', 'BuildHasherDefault::new')
+def _(it, a, info): return Opaque('randomstate', None)
+@model('BuildHasher::hash_one')
+def _(it, a, info):
+    h = Opaque('hasher', HasherState()); v = a[1]
+    ty = info['mgen'][0] if info.get('mgen') else None
+    pv = deref(v)
+    if isinstance(pv, RBox): pv = pv.cell[0]
+    if isinstance(pv, (Agg, Enum)) and not is_std_value(pv):
+        it.call_named('<%s as Hash>::hash' % pv.ty, [Ref([pv], 0), Ref([h], 0)], [None, None], None)
+    else: feed(it, pv, h.data, ty)
+    return uf('Fin', 1)(h.data.h)
+@model('ToOwned::clone_into')
+def _(it, a, info):
+    src = deref(a[0]); dst = deref(a[1])
+    if isinstance(dst, RString): dst.ch[:] = as_chars(src)
+    elif isinstance(dst, RVec): dst.items[:] = [deep_copy(x) for x in as_items(src)]
+    else: raise Unsupported('clone_into %r' % (dst,))
+    return UNIT
+@model('Clone::clone_from')
+def _(it, a, info):
+    src = deref1(a[1]); a[0].set(deep_copy(src)); return UNIT
+_default_active = set()
+_old_default_of = default_of
+def default_of(it, ty):
+    key = ty if isinstance(ty, str) else show_ty(ty) if ty else None
+    t = parse_ty(ty) if isinstance(ty, str) else ty
+    if t is not None and t[0] == 'path' and t[1] == 'BuildHasherDefault': return Opaque('randomstate', None)
+    if key in _default_active: raise Unsupported('Default::default of ' + str(key))
+    _default_active.add(key)
+    try: return _old_default_of(it, ty)
+    finally: _default_active.discard(key)
+@model('Default::default')
+def _(it, a, info): return default_of(it, info.get('self_ty'))
+
+@model('slice::get', 'slice::get_mut', 'Vec::get', 'Vec::get_mut')
+def _(it, a, info):
+    base, lo, hi = seqview(it, a[0]); i = a[1]; n = hi - lo
+    if isinstance(i, Agg):                                   # range argument -> Option<&[T]>
+        try: s, e = range_bounds(it, i, n)
+        except RustPanic: return none()
+        return some(SliceRef(base, lo + s, lo + e))
+    if is_sym(i):
+        if not truth(it, z3.ULT(i, n)): return none()
+        i = small_value(it, i, n)
+    return some(Ref(base, lo + i)) if 0 <= i < n else none()
+@model('slice::get_unchecked', 'slice::get_unchecked_mut')
+def _(it, a, info):
+    r = MODELS['slice::get'](it, a, info)
+    if r.variant == 'None': raise RustPanic('get_unchecked out of bounds (UB)')
+    return r.f[0]
+@model('from_ref', 'slice::from_ref', 'from_mut', 'slice::from_mut')
+def _(it, a, info):
+    r = a[0]
+    if isinstance(r, Ref): return SliceRef(r.c, r.k, r.k + 1)
+    return SliceRef([r], 0, 1)
+@model('slice::first_chunk', 'slice::last_chunk', 'slice::split_first_chunk')
+def _(it, a, info): raise Unsupported(info['method'])
+
+def slice_eq_at(it, hay, i, pat):
+    if i < 0 or i + len(pat) > len(hay): return False
+    for x, y in zip(hay[i:i + len(pat)], pat):
+        if not truth(it, values_equal(it, x, y)): return False
+    return True
+@model('slice::strip_prefix')
+def _(it, a, info):
+    base, lo, hi = seqview(it, a[0]); pat = list(as_items(a[1]))
+    return some(SliceRef(base, lo + len(pat), hi)) if slice_eq_at(it, base[lo:hi], 0, pat) else none()
+@model('slice::strip_suffix')
+def _(it, a, info):
+    base, lo, hi = seqview(it, a[0]); pat = list(as_items(a[1])); n = hi - lo
+    return some(SliceRef(base, lo, hi - len(pat))) if slice_eq_at(it, base[lo:hi], n - len(pat), pat) else none()
+@model('slice::starts_with')
+def _(it, a, info):
+    return slice_eq_at(it, list(as_items(a[0])), 0, list(as_items(a[1])))
+@model('slice::ends_with')
+def _(it, a, info):
+    hay = list(as_items(a[0])); pat = list(as_items(a[1])); return slice_eq_at(it, hay, len(hay) - len(pat), pat)
+@model('slice::iter_position')
+def _(it, a, info): raise Unsupported('iter_position')
+@model('slice::rsplit', 'slice::splitn', 'slice::rsplitn', 'slice::split_inclusive')
+def _(it, a, info):
+    m = info['method']; base, lo, hi = seqview(it, a[0])
+    f = a[2] if m in ('splitn', 'rsplitn') else a[1]; lim = a[1] if m in ('splitn', 'rsplitn') else None
+    cuts = [i for i in range(lo, hi) if truth(it, call_closure_like(it, f, [Ref(base, i)]))]
+    if m == 'split_inclusive':
+        out = []; st = lo
+        for c in cuts: out.append(SliceRef(base, st, c + 1)); st = c + 1
+        if st < hi: out.append(SliceRef(base, st, hi))
+        return ListIter(out)
+    if m == 'rsplit' or m == 'rsplitn':
+        if lim is not None: cuts = cuts[len(cuts) - (lim - 1):] if lim - 1 < len(cuts) else cuts
+        if lim == 0: return ListIter([])
+        out = []; en = hi
+        for c in reversed(cuts): out.append(SliceRef(base, c + 1, en)); en = c
+        out.append(SliceRef(base, lo, en)); return ListIter(out)
+    if lim == 0: return ListIter([])
+    cuts = cuts[:lim - 1]; out = []; st = lo
+    for c in cuts: out.append(SliceRef(base, st, c)); st = c + 1
+    out.append(SliceRef(base, st, hi)); return ListIter(out)
